@@ -148,6 +148,60 @@ pub fn run(ctx: &Ctx, rec: &mut Rec) -> Value {
     m.insert("Fp::QUADRATIC_NON_RESIDUE".into(), h(&fpb(&Fp::QUADRATIC_NON_RESIDUE)));
     m.insert("Fp::MINUS_ONE".into(), h(&fpb(&Fp::MINUS_ONE)));
     m.insert("decaf377::ZETA".into(), h(&fqb(&decaf377::ZETA)));
+    // the constants *as operands*: a literal that is not the reduced internal form of its value (but prints and
+    // compares right) shows when the constant object itself goes through negation, subtraction, doubling,
+    // squaring, constant-time equality
+    macro_rules! as_operand {
+        ($m:ident, $name:literal, $konst:expr, $F:ty, $fld:expr, $from:ident, $to:ident) => {{
+            let k: $F = $konst;
+            let f = $fld;
+            let v = $from(&k);
+            let rebuilt: $F = $to(&v);
+            let mut bad: Vec<&'static str> = Vec::new();
+            if $from(&(-k)) != f.neg(&v) { bad.push("-C"); }
+            if $from(&(<$F>::ZERO - k)) != f.neg(&v) { bad.push("0 - C"); }
+            if $from(&(k + k)) != f.add(&v, &v) { bad.push("C + C"); }
+            if $from(&(k * k)) != f.sq(&v) { bad.push("C * C"); }
+            if $from(&(k - rebuilt)) != crate::model::b(0) { bad.push("C - rebuilt"); }
+            if $from(&(rebuilt - k)) != crate::model::b(0) { bad.push("rebuilt - C"); }
+            if !(k == rebuilt) || !(rebuilt == k) { bad.push("C == rebuilt"); }
+            if $from(&k.square()) != f.sq(&v) { bad.push("C.square()"); }
+            if let Some(i) = k.inverse() { if $from(&(i * k)) != crate::model::b(1) { bad.push("C^-1 * C"); } } else if v != crate::model::b(0) { bad.push("inverse is None"); }
+            if k.to_bytes_le() != rebuilt.to_bytes_le() { bad.push("bytes"); }
+            $m.insert(concat!($name, " as an operand").into(), json!(bad));
+        }};
+    }
+    {
+        let (fq_, fr_, fp_) = (&ctx.c.f, &ctx.fr, &ctx.fp);
+        as_operand!(m, "decaf377::ZETA", decaf377::ZETA, Fq, fq_, fqb, fq);
+        as_operand!(m, "Fq::ONE", Fq::ONE, Fq, fq_, fqb, fq);
+        as_operand!(m, "Fq::ZERO", Fq::ZERO, Fq, fq_, fqb, fq);
+        as_operand!(m, "Fq::MULTIPLICATIVE_GENERATOR", Fq::MULTIPLICATIVE_GENERATOR, Fq, fq_, fqb, fq);
+        as_operand!(m, "Fq::TWO_ADIC_ROOT_OF_UNITY", Fq::TWO_ADIC_ROOT_OF_UNITY, Fq, fq_, fqb, fq);
+        as_operand!(m, "Fq::FIELD_SIZE_POWER_OF_TWO", Fq::FIELD_SIZE_POWER_OF_TWO, Fq, fq_, fqb, fq);
+        as_operand!(m, "Fq::QUADRATIC_NON_RESIDUE_TO_TRACE", Fq::QUADRATIC_NON_RESIDUE_TO_TRACE, Fq, fq_, fqb, fq);
+        as_operand!(m, "Fr::ONE", Fr::ONE, Fr, fr_, frb, fr);
+        as_operand!(m, "Fr::MULTIPLICATIVE_GENERATOR", Fr::MULTIPLICATIVE_GENERATOR, Fr, fr_, frb, fr);
+        as_operand!(m, "Fr::TWO_ADIC_ROOT_OF_UNITY", Fr::TWO_ADIC_ROOT_OF_UNITY, Fr, fr_, frb, fr);
+        as_operand!(m, "Fr::FIELD_SIZE_POWER_OF_TWO", Fr::FIELD_SIZE_POWER_OF_TWO, Fr, fr_, frb, fr);
+        as_operand!(m, "Fp::ONE", Fp::ONE, Fp, fp_, fpb, fp);
+        as_operand!(m, "Fp::MINUS_ONE", Fp::MINUS_ONE, Fp, fp_, fpb, fp);
+        as_operand!(m, "Fp::MULTIPLICATIVE_GENERATOR", Fp::MULTIPLICATIVE_GENERATOR, Fp, fp_, fpb, fp);
+        as_operand!(m, "Fp::TWO_ADIC_ROOT_OF_UNITY", Fp::TWO_ADIC_ROOT_OF_UNITY, Fp, fp_, fpb, fp);
+        as_operand!(m, "Fp::FIELD_SIZE_POWER_OF_TWO", Fp::FIELD_SIZE_POWER_OF_TWO, Fp, fp_, fpb, fp);
+        as_operand!(m, "Fp::QUADRATIC_NON_RESIDUE", Fp::QUADRATIC_NON_RESIDUE, Fp, fp_, fpb, fp);
+        as_operand!(m, "Fp::QUADRATIC_NON_RESIDUE_TO_TRACE", Fp::QUADRATIC_NON_RESIDUE_TO_TRACE, Fp, fp_, fpb, fp);
+        // the generator constant as an operand of the group law
+        let g = El::GENERATOR;
+        let mut bad: Vec<&'static str> = Vec::new();
+        let gm = &ctx.g;
+        if denotes(&ctx.c, &(g + g), &ctx.c.double(gm)).is_err() { bad.push("G + G"); }
+        if denotes(&ctx.c, &(-g), &ctx.c.neg(gm)).is_err() { bad.push("-G"); }
+        if !(g - g).is_identity() { bad.push("G - G"); }
+        if denotes(&ctx.c, &(g + El::IDENTITY), gm).is_err() { bad.push("G + IDENTITY"); }
+        if denotes(&ctx.c, &(El::IDENTITY + El::IDENTITY), &ctx.c.identity()).is_err() { bad.push("IDENTITY + IDENTITY"); }
+        m.insert("Element::GENERATOR / IDENTITY as operands".into(), json!(bad));
+    }
     let (x, y, z, t) = coords(&El::GENERATOR);
     m.insert("Element::GENERATOR (X,Y,Z,T)".into(), json!([hexs(&x), hexs(&y), hexs(&z), hexs(&t)]));
     m.insert("Element::GENERATOR encoding".into(), json!(hex::encode(enc(&El::GENERATOR))));
